@@ -4,7 +4,7 @@
    (DESIGN Appendix A).  Definitions only.  Tied to the compiled generated code
    on every run by channel K5 (py/k5.py). *)
 From Coq Require Import String ZArith NArith QArith List Bool.
-From Typify Require Import Base.Json IR.TypeIR.
+From Typify Require Import Base.Json Spec.Schema Spec.Valid IR.TypeIR.
 Import ListNotations.
 Close Scope Q_scope.
 Close Scope string_scope.
@@ -27,30 +27,7 @@ Inductive rval : Type :=
 | RJson (j : json)
 | RNative (s : ustring).
 
-(* numeric equivalence of JSON scalars, structural otherwise *)
-Fixpoint json_equiv (a b : json) {struct a} : bool :=
-  match a, b with
-  | JInt x, JFlt y | JFlt y, JInt x => Qeq_bool (inject_Z x) y
-  | JArr x, JArr y =>
-      (fix go (x y : list json) : bool :=
-         match x, y with
-         | [], [] => true
-         | u :: x', v :: y' => json_equiv u v && go x' y'
-         | _, _ => false
-         end) x y
-  | JObj x, JObj y =>
-      Nat.eqb (length x) (length y) &&
-      (fix go (x : list (ustring * json)) : bool :=
-         match x with
-         | [] => true
-         | (k, u) :: x' =>
-             match assoc k y with
-             | Some v => json_equiv u v && go x'
-             | None => false
-             end
-         end) x
-  | _, _ => json_eqb a b
-  end.
+(* numeric equivalence of JSON values: Spec.Valid.json_equiv (1 = 1.0) *)
 
 Fixpoint mapM {A B} (f : A -> option B) (l : list A) : option (list B) :=
   match l with
